@@ -17,7 +17,7 @@ func init() {
 		Bounds: func(thorough bool) map[string]string {
 			st, rs, ord := "1..3", "1..2", "MaxCount 2..3 full, then 0..2"
 			if thorough {
-				st, rs, ord = "1..5", "1..3", "MaxCount 2..4 full, then 0..3"
+				st, rs, ord = "1..4", "1..2", "MaxCount 2..4 full, then 0..3"
 			}
 			return map[string]string{
 				"configuration":  "MaxSize in {0 (unlimited), 2, 4}, MaxElementSize in {0, 1, 3}, MaxCount in {0, 1, 2}, EnableLRU on/off, OnDelete nil or recording: all 108 combinations",
